@@ -188,6 +188,18 @@ class JTemplate:
                     loaded.add(n.name)
                 else:
                     bound.add(n.name)
+            elif isinstance(n, J.Macro):
+                bound.add(n.name)  # {% macro name(...) %}
+                for a in n.args:
+                    bound.add(a.name)
+            elif isinstance(n, J.Import):
+                bound.add(n.target)  # {% import "x" as target %}
+            elif isinstance(n, J.FromImport):
+                for nm in n.names:
+                    bound.add(nm[1] if isinstance(nm, tuple) else nm)  # {% from "x" import a as b %}
+            elif isinstance(n, J.CallBlock):
+                for a in n.args:
+                    bound.add(a.name)
         return {x for x in loaded - bound if x not in ("loop", "range", "true", "false", "none", "True", "False", "None", "namespace", "dict", "lipsum", "cycler", "joiner")}
 
     def names_with_lines(self, names) -> List[Tuple[str, int]]:
